@@ -23,6 +23,7 @@ EXPLANATION = (
     "unclassified primitive is an ANALYSIS-ERROR. (R2) per-sensor isolation: _map_response and ET.read_settings_data assign the result "
     "on both the normal and the ValueError path inside the loop body, and sensor.read is called nowhere else."
     ' R2 is a path rule per loop iteration (a failing item stores None and the loop goes on) and forbids eager package-defined conversions (f-string / str() of a sensor object) inside the isolating handler.'
+    ' len() applied to a label-table lookup requires every value of every table the dict expression may denote to be sized (R1 len-of-label); R2 accepts a path on which a test established that the id is already present.'
 )
 
 # calls that cannot raise on the values decoders pass them
